@@ -8,7 +8,7 @@ from typing import Any, Optional
 
 import numpy as np
 
-from . import probes, ref, world
+from . import sched, probes, ref, world
 
 
 def run_exposure(scn: dict, *, builder: str = "python", yaml_rng=None, debug: bool = False, inherited: bool = True, objects=None, reset: bool = True) -> dict:
@@ -27,6 +27,8 @@ def run_exposure(scn: dict, *, builder: str = "python", yaml_rng=None, debug: bo
         rec["objects"] = (mode, det, pipe)
         start = len(probes.HIST)
         rec["tree"] = pyxel.run_mode(mode=mode, detector=det, pipeline=pipe, debug=debug, with_inherited_coords=inherited)
+    except sched.HarnessError:
+        raise
     except BaseException as exc:  # noqa: BLE001
         rec["exc"] = exc
         rec["tb"] = traceback.format_exc(limit=5)
